@@ -62,6 +62,20 @@ def directed(rng, tier):
                 hs.round([(3, hs.publish(100, bytes([65 + k]) * 64, src_mod=32))], w, 1 + k)
             hs.round([(3, hs.publish(100, b"after", src_mod=32))], w, 9)
             out.append(hs)
+    # payloads around and far beyond 64 KiB (the manager takes up to 1 MiB), mixed with empty and small ones: each
+    # forwarded frame carries exactly the bytes it declares
+    for sizes in ([16, 0, 2000, 65535, 65536, 65537, 0, 8], [70000, 0, 8, 2 ** 20, 4, 0, 300000, 0, 12]):
+        hs = C.History(loglevel=60, tag="large-payloads")
+        for _ in range(3):
+            hs.round([], [], 0, accept=True)
+        w = [1, 2, 3]
+        hs.round([(1, hs.connect_v2(logger=1, mod_id=30))], w, 0)
+        hs.round([(1, hs.sub("sub", C.ALL))], w, 0)
+        hs.round([(2, hs.connect_v1(src_mod=31)), (3, hs.connect_v1(src_mod=32))], w, 0)
+        hs.round([(2, hs.sub("sub", 100))], w, 0)
+        for k, n in enumerate(sizes):
+            hs.round([(3, hs.publish(100, bytes((7 * k + j) % 251 for j in range(n)), src_mod=32))], w, 1 + k)
+        out.append(hs)
     return out
 
 
